@@ -1168,8 +1168,19 @@ impl<'a, S: Source + 'a> Constructed<'a, S> {
                     }
                 }
             }
+            else if tag == Tag::END_OF_VALUE {
+                // The end-of-value marker must not be constructed.
+                return Err(self.content_err("constructed end of value"))
+            }
             else if let Length::Definite(len) = length {
-                // Definite constructed value. First check if the caller
+                // Definite constructed value. These are not allowed in CER.
+                if self.mode == Mode::Cer {
+                    return Err(self.content_err(
+                        "definite length constructed in CER mode"
+                    ))
+                }
+
+                // First check if the caller
                 // likes it. Check that there is enough limit left for the
                 // value. If so, push the limit at the end of the value to
                 // the stack, update the limit to our length, and continue.
@@ -1192,8 +1203,14 @@ impl<'a, S: Source + 'a> Constructed<'a, S> {
                 self.source.set_limit(Some(len));
             }
             else {
-                // Indefinite constructed value. Simply push a `None` to the
-                // stack, if the caller likes it.
+                // Indefinite constructed value. These are not allowed in
+                // DER. Simply push a `None` to the stack, if the caller
+                // likes it.
+                if self.mode == Mode::Der {
+                    return Err(self.content_err(
+                        "indefinite length constructed in DER mode"
+                    ))
+                }
                 if let Err(err) = op(tag, constructed, stack.len()) {
                     return Err(self.content_err(err));
                 }
